@@ -25,6 +25,13 @@
                                                 scheme, host, port and path as the one assigned
   * `url_get_set_idempotent_final`            : the same with the ASCII-ness of the path derived too (`pathAscii` no longer assumed)
   * `url_get_set_idempotent_counterexample`   : F-C33b — with an IDN host the URL read back is rejected
+
+  PARTIAL RESULTS.  The full statement of the re-assignment clause is `UrlReassignIdempotent`; it is FALSE for the code
+  (`url_get_set_idempotent_counterexample`, F-C33b).  Every positive result about it is a guarded (partial) one, whatever its suffix:
+  `url_get_set_idempotent_partial` (hypothesis: url.parse reads the URL back), `…_ascii`, `…_ascii_rest`, `…_derived`, `…_final`
+  and `url_read_back_equivalent` (guard: http/https, a lower-case ASCII host — DNS name, IPv4 or bracketed IPv6 literal; the excluded
+  class is exactly F-C33b plus upper-case hosts, which read back equivalent but not identical).  The names are kept from earlier rounds.
+  `parse_authority` is modelled for every Unicode decimal digit (`\d` on a str, `int()`): table `Gen.C33.pyDigitZeros`.
 -/
 import MitmVerif.Model.C33
 import MitmVerif.Lemmas.C33Rest
@@ -66,6 +73,24 @@ theorem parseDec_decDigits (n : Nat) : parseDec (decDigits n) = n := (decF (n + 
 
 private theorem decDigits_digits (n : Nat) : ∀ c ∈ decDigits n, isDigit c = true := (decF (n + 1) n (by omega)).2.1
 private theorem decDigits_ne (n : Nat) : decDigits n ≠ [] := (decF (n + 1) n (by omega)).2.2
+
+/-! ### ASCII digits among the Unicode decimal digits -/
+private theorem ascii_digit_decimalU (c : Nat) (h : isDigit c = true) : isDecimalU c = true ∧ digitValU c = c - 48 := by
+  have hr : 48 ≤ c ∧ c ≤ 57 := by simpa [isDigit] using h
+  have : c = 48 ∨ c = 49 ∨ c = 50 ∨ c = 51 ∨ c = 52 ∨ c = 53 ∨ c = 54 ∨ c = 55 ∨ c = 56 ∨ c = 57 := by omega
+  rcases this with rfl | rfl | rfl | rfl | rfl | rfl | rfl | rfl | rfl | rfl <;> decide +kernel
+
+private theorem parseDecU_eq (s : Str) (h : ∀ c ∈ s, isDigit c = true) : parseDecU s = parseDec s := by
+  unfold parseDecU parseDec
+  have : ∀ (a : Nat), s.foldl (fun a c => a * 10 + digitValU c) a = s.foldl (fun a c => a * 10 + (c - 48)) a := by
+    induction s with
+    | nil => intro a; rfl
+    | cons c s ih =>
+      intro a
+      simp only [List.foldl_cons]
+      rw [(ascii_digit_decimalU c (h c (by simp))).2]
+      exact ih (fun x hx => h x (List.mem_cons_of_mem _ hx)) _
+  exact this 0
 
 /-! ### takeWhile / dropWhile -/
 private theorem takeWhile_all (p : Nat → Bool) (a : Str) (h : ∀ x ∈ a, p x = true) : a.takeWhile p = a := by
@@ -138,7 +163,8 @@ private theorem tailPort_tailOf (s : Str) (p : Nat) :
     unfold tailPort
     have h1 : ¬ ((58 :: decDigits p) = [] ∨ (58 :: decDigits p) = [10]) := by simp
     simp only [h1, if_false]
-    rw [takeWhile_all _ _ (decDigits_digits p), dropWhile_all _ _ (decDigits_digits p)]
+    have hdu : ∀ c ∈ decDigits p, isDecimalU c = true := fun c hc => (ascii_digit_decimalU c (decDigits_digits p c hc)).1
+    rw [takeWhile_all _ _ hdu, dropWhile_all _ _ hdu]
     simp [decDigits_ne]
 
 private theorem tailOf_clean (s : Str) (p : Nat) : 93 ∉ tailOf s p ∧ 10 ∉ tailOf s p := by
@@ -198,9 +224,9 @@ private theorem authorityMatch_hostport (s h : Str) (p : Nat) (hs : HostShape h)
       unfold tailPort
       have n1 : ¬ ((58 :: (h2 ++ 93 :: tailOf s p)) = [] ∨ (58 :: (h2 ++ 93 :: tailOf s p)) = [10]) := by simp
       simp only [n1, if_false]
-      have hm : 93 ∈ (h2 ++ 93 :: tailOf s p).dropWhile isDigit := mem_dropWhile _ _ 93 (by simp) (by decide)
-      have : ¬ ((h2 ++ 93 :: tailOf s p).takeWhile isDigit ≠ [] ∧
-          ((h2 ++ 93 :: tailOf s p).dropWhile isDigit = [] ∨ (h2 ++ 93 :: tailOf s p).dropWhile isDigit = [10])) := by
+      have hm : 93 ∈ (h2 ++ 93 :: tailOf s p).dropWhile isDecimalU := mem_dropWhile _ _ 93 (by simp) (by decide +kernel)
+      have : ¬ ((h2 ++ 93 :: tailOf s p).takeWhile isDecimalU ≠ [] ∧
+          ((h2 ++ 93 :: tailOf s p).dropWhile isDecimalU = [] ∨ (h2 ++ 93 :: tailOf s p).dropWhile isDecimalU = [10])) := by
         intro ⟨_, hh⟩
         rcases hh with hh | hh
         · rw [hh] at hm; cases hm
@@ -251,7 +277,7 @@ theorem parseAuthority_hostport (valid : Str → Bool) (s h : Str) (p : Nat)
   simp only [hv, Bool.not_true, Bool.false_eq_true, if_false]
   by_cases hd : defaultPort s = some p
   · simp [hd]
-  · simp [hd, parseDec_decDigits, hp]
+  · simp [hd, parseDecU_eq _ (decDigits_digits p), parseDec_decDigits, hp]
 
 /-! ### host / port / url edits -/
 
@@ -738,9 +764,6 @@ theorem url_get_set_idempotent_ascii (Q : PyLib) (r : Req) (u : Str) (r' : Req) 
   url_get_set_idempotent_partial (pyLib Q) r u r' h1 (url_parse_reads_getter_url Q r' ok)
 
 /-! ### the `restStable` hypothesis, derived: the re-assembly after the netloc is transcribed (`normRestPy`) and idempotent -/
-
-/-- the library with urlparse/urlunparse's treatment of what follows the netloc transcribed as well -/
-def withRest (Q : PyLib) : PyLib := { Q with normRest := normRestPy }
 
 /-- whatever `url.parse` accepts, the path it returns is the re-assembled rest (with a `/` in front if it lacks one) under the
     scheme it returns -/
